@@ -30,7 +30,7 @@ Apply(st, o) ==
     CASE o.op = "create" -> [st |-> [st EXCEPT ![o.i] = [alive |-> TRUE, g |-> "nil", cfg |-> FALSE, limited |-> o.limited]], obs |-> [ret |-> 0, status |-> 0, out |-> ""]]
       [] o.op = "destroy" -> [st |-> [st EXCEPT ![o.i] = Fresh], obs |-> [ret |-> 0, status |-> -1, out |-> ""]]
       [] o.op = "status" -> [st |-> st, obs |-> [ret |-> 0, status |-> 0, out |-> ""]]
-      [] o.op = "null" ->      \* any call on the NULL handle
+      [] o.op = "null" ->      \* any call on a handle that is no instance: NULL, or memory that does not carry the instance tag (o.hk)
             [st |-> st, obs |-> [ret |-> -1, status |-> -1, out |-> ""]]
       [] o.op = "config" ->
            (CASE o.kind = "cfgok" -> [st |-> [st EXCEPT ![o.i].cfg = TRUE], obs |-> [ret |-> 0, status |-> 0, out |-> ""]]
